@@ -120,6 +120,10 @@ def check(ctx):
         block, family, degrees, _, unit_rpe = mm.ORACLE[member]
         err = res.attrs.get((mm.SELF, "error"))
         dids = mm.final_attr(prog, res, "RPE", "delta_ids")
+        if err is None and dids is not None:
+            from .c01 import _missing_values
+            if _missing_values(ctx, res, "C02.6", "RPE", member):
+                continue
         ctx.require(err is not None and dids is not None,
                     f"RPE[{member}]: error / delta_ids never assigned")
         raw_dids = dids
